@@ -95,9 +95,23 @@ def run_history(spec, hist):
     return out
 
 
-def histories(spec, rnd_orders):
-    n = len(spec["modules"])
-    mods = list(range(n))
+def exportable(spec):
+    """In a pristine child: indices of the modules that export on their own (the others are rejections, not histories)."""
+    env.setup_paths()
+    import hdl21 as h
+    b = Builder(spec)
+    ok = []
+    for k in range(len(spec["modules"])):
+        try:
+            h.to_proto(b.module(k))
+            ok.append(k)
+        except Exception:
+            pass
+    return ok
+
+
+def histories(spec, rnd_orders, mods):
+    n = len(mods)
     out = []
     perms = list(itertools.permutations(mods))
     if n > 4:
@@ -126,8 +140,13 @@ def eval_design(spec, rnd_orders, extra_hists):
         return {"harness": "%s %s" % (base[1], base[2])}
     if base["bytes"] is None:
         return {"reject": base["error"]}
+    ok = par.pristine(exportable, spec)
+    if par.is_exc(ok):
+        return {"harness": "%s %s" % (ok[1], ok[2])}
+    # modules that do not export on their own (and everything instantiating them) stay out of the histories
+    extra_hists = [[op for op in hst if op[0] == "construct_all" or all(k in ok for k in ([op[1]] if op[0] == "construct" else op[1]))] for hst in extra_hists]
     results = []
-    for hist in histories(spec, rnd_orders) + extra_hists:
+    for hist in histories(spec, rnd_orders, ok) + [x for x in extra_hists if x]:
         r = par.pristine(run_history, spec, hist)
         if par.is_exc(r):
             return {"harness": "%s %s %s" % (r[1], r[2], r[3][-600:])}
